@@ -143,7 +143,9 @@ def tlc(module, cfg, workers=None, env=None, timeout=1100, simulate=None, depth=
     # validation runs are pure functions of (specification files, config, input file): memoise them, so that
     # checks that share a pipeline (C11/C12, ...) do not pay twice on the same tree
     ckey = None
-    if env and 'TRACE' in env and 'OUT' not in env and not simulate and os.path.exists(str(env['TRACE'])):
+    is_tv = bool(env) and 'TRACE' in env and os.path.exists(str(env.get('TRACE', '')))
+    is_mc = (not env or all(k in ('PART', 'NPARTS') for k in env)) and not coverage and (module.startswith('MC'))
+    if (is_tv or is_mc) and not (env and 'OUT' in env) and not simulate:
         h = hashlib.sha256()
         for p in sorted(glob.glob(os.path.join(SPEC, '*.tla'))):
             if p.endswith('Proofs.tla'):
@@ -155,9 +157,12 @@ def tlc(module, cfg, workers=None, env=None, timeout=1100, simulate=None, depth=
         cfgp = cfg if os.path.isabs(cfg) else os.path.join(SPEC, cfg)
         with open(cfgp, 'rb') as f:
             h.update(f.read())
-        with open(str(env['TRACE']), 'rb') as f:
-            for blk in iter(lambda: f.read(1 << 20), b''):
-                h.update(blk)
+        if is_tv:
+            with open(str(env['TRACE']), 'rb') as f:
+                for blk in iter(lambda: f.read(1 << 20), b''):
+                    h.update(blk)
+        else:
+            h.update(repr(sorted((env or {}).items())).encode() + repr((workers, deadlock, cont, list(extra), depth)).encode())
         h.update(module.encode())
         ckey = os.path.join(ensure(os.path.join(WORK, 'cache')), h.hexdigest()[:32] + '.json')
         if os.path.exists(ckey):
